@@ -40,9 +40,10 @@ func (r *runner) hammer(a int, stop <-chan struct{}, wg *sync.WaitGroup) {
 			r.traffic.mu.Unlock()
 			r.fail("traffic-connection-refused", fmt.Sprintf("background connection to retained address %s during load %d: %s (%s)", addrNames[a], hi, ans, detail))
 		case g < 0 && ans == ansReset && !isUnix(a) && (e0%2 == 1 || e0 != e1):
+			// queued by the kernel on the SO_REUSEPORT socket that was being closed while we
+			// connected: counted, not a failure (props.d: accept-queue semantics are the runtime's)
 			r.traffic.reset++
 			r.traffic.mu.Unlock()
-			r.fail("tcp-connection-reset-while-listener-closes", fmt.Sprintf("background connection to retained address %s during load %d, while the replaced config's listener on it was being closed: %s", addrNames[a], hi, detail))
 		case g < 0:
 			r.traffic.broken++
 			r.traffic.mu.Unlock()
@@ -126,9 +127,9 @@ func (r *runner) execute() {
 	for u := range r.env.upath {
 		_ = removeIfExists(r.env.upath[u])
 	}
-	// Descriptors caddy leaks (File() in unixListener.Close, reuseUnixSocket) are closed by
-	// finalizers; when that happens is up to the collector. Collect now and keep the
-	// collector off while the case runs so that what we observe does not depend on it.
+	// Should caddy leak a descriptor of a listening socket, a finalizer would close it at
+	// some point; when is up to the collector. Collect now and keep the collector off
+	// while the case runs so that what we observe does not depend on it.
 	runtime.GC()
 	runtime.GC()
 	defer debug.SetGCPercent(debug.SetGCPercent(-1))
